@@ -29,7 +29,7 @@ use crate::gen::clocks::{advance, base_instant};
 use crate::obs::{CallObs, Val, F};
 use crate::prng::Rng;
 use crate::rules::{digest_vals, expected_result, Decision};
-use crate::trace::{AdminOp, Event, Line, Op, ResultSpec, RuleSpec, TextSpec, Trace, TypeItemSpec, ADMIN};
+use crate::trace::{AdminOp, Event, InnerStep, Line, Op, ResultSpec, RuleSpec, TextSpec, Trace, TypeItemSpec, ADMIN};
 use crate::world::{AdminObs, World};
 
 pub struct C18;
@@ -104,7 +104,7 @@ fn gen_probe_lc(r: &mut Rng, k: usize) -> (String, bool) {
         8 => match r.below(4) { 0 => (format!("plonk {}", n), false), 1 => (format!("plonk {} minutes", 1 + n), true), _ => (format!("plonk {} hours", 1 + n), true) },
         9 => match r.below(5) { 0 => (format!("{} km dibs", m), false), 1 => (format!("{} {} dibs", m, unit_name("famy", r.usize(5))), false), _ => (format!("{} {} dibs", m, unit_name("famx", r.usize(5))), true) },
         10 => match r.below(4) { 0 => (format!("{} dday", n), false), _ => (format!("{}/{}/{} dday", 1 + r.below(28), 1 + r.below(12), 1950 + r.below(150)), true) },
-        11 => match r.below(5) { 0 => (format!("{} due tomorrow", n), false), _ => (format!("{} due today", n), true) },
+        11 => match r.below(6) { 0 => (format!("{} due tomorrow", n), true), 1 => (format!("{} due yesterday", n), true), 2 => (format!("{} due 5", n), false), _ => (format!("{} due today", n), true) },
         _ => match r.below(3) { 0 | 1 => (format!("{} snarf", n), true), _ => (format!("{} snarfx", n), false) },
     }
 }
@@ -361,6 +361,14 @@ impl Check for C18 {
                         continue;
                     }
                 }
+                if r.chance(1, 8) {
+                    // another probe is evaluated INSIDE the first callback invocation of this one, on the same calculator
+                    let k2 = if !shapes_seen.is_empty() && r.chance(2, 3) { *r.pick(&shapes_seen) } else { r.usize(SHAPES.len()) };
+                    let inner_line = if r.chance(1, 4) { gen_compound(&mut r) } else { gen_probe(&mut r, k2).0 };
+                    let inner = vec![InnerStep { at_call: 1, actor: 9, session: false, lang: "en".into(), text: TextSpec::single(Line::Raw(inner_line)), dt: 0 }];
+                    events.push(Event { actor: 0, op: Op::Nested { outer: Box::new(Op::Execute { lang: lang.into(), text: TextSpec::single(Line::Raw(line)) }), inner }, clock });
+                    continue;
+                }
                 events.push(Event { actor: 0, op: Op::Execute { lang: lang.into(), text: TextSpec::single(Line::Raw(line)) }, clock });
             } else if cp_left > 0 && step > 3 {
                 cp_left -= 1;
@@ -504,11 +512,12 @@ impl Check for C18 {
                     let line = match &via_var { Some(lit) => lower.replacen("vv", &lit.to_lowercase(), 1), None => lower };
                     let kw = SHAPES.iter().position(|(k, _)| line.split(|c: char| !c.is_alphabetic()).any(|w| w == *k));
                     // (shape "due": the pattern's "today" is the day of the registration - in English; in a Turkish pattern it is a plain word)
-                    let today = crate::clock::utc_days(ev.clock.base());
+                    // the day the line's clock word denotes: today, tomorrow (+1) or yesterday (-1)
+                    let today = crate::clock::utc_days(ev.clock.base()) + if line.ends_with(" tomorrow") { 1 } else if line.ends_with(" yesterday") { -1 } else { 0 };
                     let live: Vec<RuleSpec> = match kw { Some(k) => l.cfg.rules.get(lang).map(|v| v.iter().filter(|s| shape_of(s) == Some(k) && (k != 11 || lang != "en" || reg_time.get(&s.id).map(|t| crate::clock::utc_days(*t)) == Some(today))).cloned().collect()).unwrap_or_default(), None => vec![] };
                     if kw == Some(11) && l.cfg.rules.get(lang).map(|v| v.iter().any(|s| shape_of(s) == Some(11))).unwrap_or(false) { rep.count(if live.is_empty() { "probe.pattern_today_is_another_day" } else { "probe.pattern_today_is_today" }); }
                     // the duration words of the probes are English: in another language "40 minutes" is no duration
-                    let fields: Option<Vec<Vec<(String, Val)>>> = kw.filter(|k| !(*k == 8 && lang != "en")).and_then(|k| expected_fields(k, &line, &l)).map(|f| {
+                    let fields: Option<Vec<Vec<(String, Val)>>> = kw.filter(|k| !(*k == 8 && lang != "en")).filter(|k| !(*k == 11 && lang != "en" && !line.ends_with(" today"))).and_then(|k| expected_fields(k, &line, &l)).map(|f| {
                         // through a variable the rule receives the variable itself, not its value
                         let f: Vec<(String, Val)> = if via_var.is_some() { f.into_iter().map(|(n, _)| (n, Val::Other(format!("{:?}", "VARIABLE")))).collect() } else { f };
                         // shape "wug": the second pattern binds the same two numbers the other way round
@@ -578,6 +587,27 @@ impl Check for C18 {
                                 }
                             }
                         }
+                    }
+                }
+                Op::Nested { outer, inner } => {
+                    // a probe evaluated inside a callback invocation of another probe: both must evaluate exactly
+                    // as they do alone on this calculator (decisions are pure functions of rule and fields)
+                    let (lang, line) = match &**outer { Op::Execute { lang, text } => match text.lines.first() { Some(Line::Raw(s)) => (lang.clone(), s.clone()), _ => continue }, _ => continue };
+                    let calls: Vec<crate::world::InnerCall> = inner.iter().enumerate().filter_map(|(idx, st)| match st.text.lines.first() { Some(Line::Raw(s)) => Some(crate::world::InnerCall { idx, at_call: st.at_call, actor: st.actor, session: false, lang: st.lang.clone(), text: s.clone(), t: ev.clock.base() + st.dt }), _ => None }).collect();
+                    let inner_lines: Vec<(String, String, i128)> = calls.iter().map(|c| (c.lang.clone(), c.text.clone(), c.t)).collect();
+                    let (o, _, results) = l.run_nested(None, &lang, &line, &ev.clock, calls);
+                    rep.evaluations += 1 + results.len() as u64;
+                    rep.mix_obs(&o.short());
+                    let (alone, _) = l.execute(&lang, &line, &ev.clock);
+                    rep.judged += 1;
+                    if o != alone { rep.violate("O-effect", "nested-outer-differs".into(), ei, format!("probe {:?} evaluated while another probe ran inside its callback gave {} but alone {}", line, o.short(), alone.short())); }
+                    for res in results.iter() {
+                        let (il, it, t) = &inner_lines[res.idx];
+                        if res.fired_in_call.is_some() { rep.count("sched.step_inside_callback"); } else { rep.count("probe.nested_not_reached"); continue; }
+                        let (alone, _) = l.execute(il, it, &ClockScript::Frozen { t: *t });
+                        rep.judged += 1;
+                        rep.mix_obs(&res.obs.short());
+                        if res.obs != alone { rep.violate("O-effect", "nested-inner-differs".into(), ei, format!("probe {:?} evaluated inside a callback invocation of {:?} gave {} but alone {}", it, line, res.obs.short(), alone.short())); }
                     }
                 }
                 Op::Checkpoint { probes } => {
@@ -717,7 +747,8 @@ fn expected_fields_plain(k: usize, line: &str) -> Option<Vec<(String, Val)>> {
         }
         6 => if words.len() == 3 && words[1] == "wug" { match (num(words[0]), num(words[2])) { (Some(a), Some(b)) => Some(vec![("a".to_string(), n(a)), ("b".to_string(), n(b))]), _ => None } } else { None },
         7 => if words.len() == 2 && words[0] == "çörk" { num(words[1]).map(|v| vec![("n".to_string(), n(v))]) } else { None },
-        11 => if words.len() == 3 && words[1] == "due" && words[2] == "today" { num(words[0]).map(|v| vec![("n".to_string(), n(v))]) } else { None },
+        // the pattern holds the DATE its "today" denoted at registration; a line matches when its clock word denotes that date
+        11 => if words.len() == 3 && words[1] == "due" && ["today", "tomorrow", "yesterday"].contains(&words[2]) { num(words[0]).map(|v| vec![("n".to_string(), n(v))]) } else { None },
         8 => if words.len() == 3 && words[0] == "plonk" { let len = match words[2] { "hours" | "hour" => 3600, "minutes" | "minute" => 60, _ => return None }; num(words[1]).map(|v| vec![("d".to_string(), Val::Dur { secs: v as i64 * len, nanos: 0 })]) } else { None },
         10 => if words.len() == 2 && words[1] == "dday" {
             let p: Vec<&str> = words[0].split('/').collect();
